@@ -483,6 +483,15 @@ def _is_valid_language(ck, w):
                 for a in e.args:
                     for x in flow.origins(fb, a):
                         if x[0] == "const" and x[1] == "str":
+                            if x[2] == "":
+                                # `part == ""` / the pattern `""` is the emptiness test; on the whole remainder ("/" itself) it is not
+                                # a component test
+                                if fb.name == b.name and not any(y[0] == "call" and re.search(r"::next$", y[1])
+                                                                 for a2 in e.args[:2] if a2.get("k") != "const" for y in flow.origins_x(lib, fb, a2)):
+                                    continue
+                                tests.add(("is_empty", None))
+                                occ.append((fb, e, ("is_empty", None), False, e.callee.endswith("::ne")))
+                                continue
                             tests.add(("eq", x[2]))
                             occ.append((fb, e, ("eq", x[2]), False, e.callee.endswith("::ne")))
     NUL = chr(0)
@@ -511,7 +520,7 @@ def _is_valid_language(ck, w):
             bad_edges = rules.bool_switch_edges(fb, e, bad_pol)
         if bad_edges:
             for (u_, v_) in bad_edges:
-                if fb.reachable(v_) & accept:
+                if rules.reachable_const(fb, v_) & accept:
                     wrong.append((fb, e, tst))
                     break
         else:
